@@ -49,7 +49,34 @@ fn scase_s() -> impl Strategy<Value = SCase> {
 }
 
 fn render_case(c: &SCase) -> (Program, Rendered) {
-    let prog = build_program(&c.g);
+    let mut prog = build_program(&c.g);
+    // one program in three uses macros (one of them nested two deep): every macro-made instruction is announced with
+    // the line of the outermost use
+    if c.layout_choices.first().map(|x| x % 3 == 0).unwrap_or(false) {
+        use crate::asm::{Insn, Opd, R16};
+        let start_idx = prog.code.iter().position(|i| matches!(i, Item::Label(n) if n == "start")).unwrap_or(0);
+        let mut at = start_idx + 1;
+        for (k, sel) in c.layout_choices.iter().skip(1).take(3).enumerate() {
+            let reg = if sel & 1 == 0 { R16::SI } else { R16::DI };
+            let rn = if sel & 1 == 0 { "si" } else { "di" };
+            let mut exp = vec![Insn::new("mov", vec![Opd::R16(reg), Opd::R16(reg)]), Insn::new("nop", vec![])];
+            let item = if sel & 2 == 0 {
+                exp.push(Insn::new("nop", vec![]));
+                Item::MacroUse { name: "m2".into(), args: vec![rn.into()], expands_to: exp }
+            } else {
+                Item::MacroUse { name: "m1".into(), args: vec![rn.into()], expands_to: exp }
+            };
+            at = (at + (*sel as usize >> 2) % 3).min(prog.code.len());
+            // only at the top level of the main part (not inside the data / procedure section)
+            if at <= start_idx {
+                at = start_idx + 1;
+            }
+            prog.code.insert(at, item);
+            at += 1 + k;
+        }
+        prog.code.insert(0, Item::MacroDef { name: "m2".into(), params: vec!["b".into()], body_src: " m1 (b) nop ".into() });
+        prog.code.insert(0, Item::MacroDef { name: "m1".into(), params: vec!["a".into()], body_src: " mov a,a nop ".into() });
+    }
     let layout = Layout { choices: c.layout_choices.clone(), comments: c.comments, trailing_newline: true, pack_lines: false };
     let r = render_program(&prog, &layout);
     (prog, r)
